@@ -644,6 +644,18 @@ impl CommandHub {
             return;
         };
 
+        // A task created during this very loop turn is still parked in
+        // `queued_tasks` (it joins `self.tasks` at the top of the next turn), but
+        // its requests may already be flushed and answered within the turn: a
+        // fast worker's answer must not be dropped as "unknown", which would
+        // leave the task waiting for its timeout and fail a request that every
+        // worker acknowledged.
+        if !self.tasks.contains_key(&task_id) {
+            if let Some(task) = self.server.queued_tasks.remove(&task_id) {
+                self.tasks.insert(task_id, task);
+            }
+        }
+
         let task = match self.tasks.get_mut(&task_id) {
             Some(task) => task,
             None => {
